@@ -77,6 +77,14 @@ def _fp_ens(S, a, r):
         out.append((f"peak {k}: reaches right_extension past its last hit end", int(ends[k]) >= end + a.right_extension - int(p["dt"]) + 0
                     and int(ends[k]) <= end + a.right_extension))
         out.append((f"peak {k}: n_hits", int(p["n_hits"]) == len(idx)))
+        # largest gap between a hit and the end of the hits before it in the same peak (0 for a single hit)
+        mg, run_end = 0, None
+        for i in idx:
+            t0, t1 = int(hits[i]["time"]), int(hits[i]["time"]) + int(hits[i]["dt"]) * int(hits[i]["length"])
+            if run_end is not None:
+                mg = max(mg, t0 - run_end)
+            run_end = t1 if run_end is None else max(run_end, t1)
+        out.append((f"peak {k}: max_gap is the largest gap between consecutive hits of THIS peak", int(p["max_gap"]) == mg))
         out.append((f"peak {k}: area is the sum of its hits' areas in PE", abs(float(p["area"]) - area) <= 1e-3 * max(1, abs(area))))
     out.append(("peaks are disjoint and time-ordered",
                 all(int(ends[k]) <= int(peaks[k + 1]["time"]) for k in range(len(peaks) - 1))))
@@ -203,8 +211,15 @@ def _mp_ens(S, a, r):
     for g in range(len(new)):
         s_, e_ = int(a.start_merge_at.arr[g]), int(a.end_merge_at.arr[g])
         grp = peaks[s_:e_]
-        out.append((f"group {g}: spans first start to last end", int(new[g]["time"]) == int(grp[0]["time"])
-                    and int(ne[g]) == int(pe[e_ - 1])))
+        import math
+        gcd = 0
+        for d_ in grp["dt"]:
+            gcd = math.gcd(gcd, int(d_))
+        # the merged peak is sampled at the gcd of its parts' sampling widths; its end is the last end rounded DOWN to that grid
+        # (never beyond it, so that peaks stay disjoint) - for equal widths and aligned parts that is the last end itself
+        out.append((f"group {g}: spans first start to last end (to within one sample of the common sampling width)",
+                    int(new[g]["time"]) == int(grp[0]["time"]) and int(pe[e_ - 1]) - gcd < int(ne[g]) <= int(pe[e_ - 1])
+                    and all(int(d_) % int(new[g]["dt"]) == 0 for d_ in grp["dt"])))
         out.append((f"group {g}: areas and hit counts add up", abs(float(new[g]["area"]) - float(grp["area"].sum())) < 1e-3
                     and int(new[g]["n_hits"]) == int(grp["n_hits"].sum())
                     and np.allclose(new[g]["area_per_channel"], grp["area_per_channel"].sum(axis=0))))
@@ -215,21 +230,23 @@ def _mp_ens(S, a, r):
 
 def _mp_gen(rng, tier):
     strax = _strax()
-    dt = strax.peak_dtype(n_channels=2, n_sum_wv_samples=40)
-    for _ in range(300 if tier == "quick" else 20000):
+    dt = strax.peak_dtype(n_channels=2, n_sum_wv_samples=120)
+    for case in range(300 if tier == "quick" else 20000):
         n = rng.randint(2, 7)
         peaks = np.zeros(n, dtype=dt)
         t = 0
+        # every third case mixes sampling widths that are not multiples of the smallest one (the merged peak needs their gcd)
+        dts = (1,) if case % 3 else rng.choice(((2, 3), (2, 4), (3, 3), (4, 6)))
         for k in range(n):
             t += rng.randint(0, 3)
             ln = rng.randint(1, 4)
-            peaks[k]["time"], peaks[k]["length"], peaks[k]["dt"] = t, ln, 1
+            peaks[k]["time"], peaks[k]["length"], peaks[k]["dt"] = t, ln, rng.choice(dts)
             w = [rng.randint(0, 5) for _ in range(ln)]
             peaks[k]["data"][:ln] = w
             peaks[k]["area"] = sum(w)
             peaks[k]["area_per_channel"] = [sum(w) - 1.0, 1.0]
             peaks[k]["n_hits"] = rng.randint(1, 3)
-            t += ln
+            t += ln * int(peaks[k]["dt"])
         groups, k = [], 0
         while k < n - 1:
             if rng.random() < 0.5:
@@ -248,7 +265,7 @@ merge_peaks = Contract(
     FM, "merge_peaks", params=dict(peaks=RowsT(), start_merge_at=ArrT("int"), end_merge_at=ArrT("int")),
     ensures=_mp_ens, raises={},
     harness=Harness(native=_mp_native, gen=_mp_gen,
-                    scope="random disjoint peak lists of 2..7 peaks (dt 1, <=4 samples) with merge groups of 2..3 consecutive peaks, "
+                    scope="random disjoint peak lists of 2..7 peaks (<=4 samples; dt 1, or mixed dt from (2,3) (2,4) (3,3) (4,6)) with merge groups of 2..3 consecutive peaks, "
                           "including groups that end at the last peak",
                     nontrivial=lambda i: True))
 
@@ -588,3 +605,64 @@ index_of_fraction = Contract(
                     scope="all waveforms over {0,1,2} of 1..4 samples with positive area x fractions {0,.25,.5,.75,1} and {.5} + random "
                           "waveforms of <=8 samples whose total is a power of two with up to 4 sorted binary-exact fractions (all partial sums exact)",
                     nontrivial=lambda i: len(i["waveform"]) >= 2))
+
+
+# ---- highest_density_region: the smallest set of highest samples (whole height levels) holding at least the fraction ------------
+FST = "strax/processing/statistics.py"
+
+
+def _hdr_reference(data, f):
+    data = np.asarray(data, dtype=float)
+    tot = data.sum()
+    sel = data >= data.max()
+    for level in sorted(set(data.tolist()))[::-1]:
+        sel = data >= level
+        if data[sel].sum() / tot >= f:
+            break
+    idx = np.flatnonzero(sel)
+    if len(idx) == len(data):
+        return [[0, len(data)]]
+    out, start = [], idx[0]
+    for a_, b_ in zip(idx[:-1], idx[1:]):
+        if b_ != a_ + 1:
+            out.append([int(start), int(a_) + 1])
+            start = b_
+    out.append([int(start), int(idx[-1]) + 1])
+    return out
+
+
+def _hdr_native(i):
+    res, _amp = _strax().highest_density_region(np.array(i["data"], dtype=np.float64), np.array([i["fraction"]]))
+    out = []
+    for k in range(res.shape[2]):
+        a_, b_ = res[0, 0, k], res[0, 1, k]
+        if a_ == 0 and b_ == 0:
+            break
+        out.append([int(a_), int(b_)])
+    return out
+
+
+def _hdr_ens(S, a, r):
+    want = _hdr_reference(_unw(a.data), a.fraction)
+    got = [list(x) for x in _unw(r)]
+    return [(f"the region is the smallest set of highest samples (whole height levels) that holds at least the fraction of the area - a "
+             f"level holding EXACTLY the fraction is that level [got {got}, defined {want}]", got == want)]
+
+
+def _hdr_gen(rng, tier):
+    for n in (2, 3, 4, 5):
+        for data in itertools.product([0, 1, 2, 4], repeat=n):
+            # (a plateau at the maximum is treated sample by sample by strax - kept out of this scope; totals and fractions are such
+            #  that every partial sum is exact in floating point)
+            if sum(data) == 0 or list(data).count(max(data)) != 1 or (n == 5 and rng.random() < 0.8):
+                continue
+            for f in (0.25, 0.5, 0.75):
+                yield dict(data=list(data), fraction=f)
+
+
+highest_density_region = Contract(
+    FST, "highest_density_region", params=dict(data="V", fraction="real"), ensures=_hdr_ens, raises={},
+    harness=Harness(native=_hdr_native, gen=_hdr_gen,
+                    scope="all waveforms over {0,1,2,4} of 2..4 samples (a fifth of those of 5 samples) with a unique maximum x fractions "
+                          "{0.25, 0.5, 0.75}; one fraction per call",
+                    nontrivial=lambda i: len(i["data"]) >= 3))
